@@ -3,6 +3,7 @@ package main
 import (
 	"fmt"
 	"go/types"
+	"sort"
 
 	"golang.org/x/tools/go/ssa"
 )
@@ -50,10 +51,14 @@ func runR13_10(c *Ctx, r *R) {
 			}
 		})
 		k := 0
+		var ps []*pair
 		for _, p := range objs {
-			if p.table == nil {
-				continue
+			if p.table != nil {
+				ps = append(ps, p)
 			}
+		}
+		sort.Slice(ps, func(i, j int) bool { return ps[i].table.Pos() < ps[j].table.Pos() })
+		for _, p := range ps {
 			ex, ok := p.table.Val.(*ssa.Extract)
 			if !ok {
 				continue
